@@ -71,7 +71,8 @@ def engine(R, prog):
     seen = an.SeenTracker([('waited', waited), ('collected_pub', lambda ev: (K.written_member(ev) or ('',))[0] == PHASE and 'COLLECTED' in ev.show(ev.e['r']) and not (ev.path(ev.e['l']) or '').startswith(PA + '.'))])
     gt = an.GuardTracker(lambda k: True)
     res = an.run(G, [lt, gt, seen, an.ConstTracker()])
-    collected = lambda st: ('G:%s.phase == 4=T' % PA) in st
+    COLL = K.one([e['cv'] for e in f.exprs if e['k'] == 'enumconst' and (e.get('name') or '').endswith('::COLLECTED') and 'cv' in e], 'value of OooPhase::COLLECTED', f)
+    collected = lambda st: ('G:%s.phase == %d=T' % (PA, COLL)) in st
 
     def own_erase_found(st):
         if any(('G:%s=T' % v) in st for v in erase_locals):
@@ -86,6 +87,17 @@ def engine(R, prog):
                key_fn=lambda ev: P + '.K6:OooEngine::wait_completion:give-up-requires-ownership',
                describe=lambda ev: 'a follower whose wait failed abandons its context (return -1) only if its own erase removed the tag from the map',
                min_sites=4, what='return -1')
+    # (1b) the result slot of the caller's own context is handed back only when the context is known COLLECTED: observed under the
+    # context's spinlock (facts about the context die across m_wait.wait, which releases that lock), or published by this very thread
+    own_pub = lambda ev: (K.written_member(ev) or ('',))[0] == PHASE and 'COLLECTED' in ev.show(ev.e['r'])
+    res_own = an.run(G, [an.LockTracker(), an.GuardTracker(lambda k: 'phase' in k or '.tag' in k or 'o_tag' in k,
+                                                            kill=lambda ev, key: waited(ev) and 'phase' in key), an.SeenTracker([('published', own_pub)])])
+    K.check_at(R, P + '.K6', G, res_own,
+               target=lambda ev: ev.kind == 'return' and ev.depth == 0 and (ev.path(ev.e['sub']) or '') == PA + '.ret',
+               require=lambda st, ev: collected(st) or 'S:published' in st,
+               key_fn=lambda ev: P + '.K6:OooEngine::wait_completion:result-only-when-COLLECTED',
+               describe=lambda ev: 'args.ret is returned only after phase == COLLECTED was observed since the last wait (or this thread collected it itself)',
+               min_sites=2, what='return args.ret')
     is_completion = lambda ev: ev.kind == 'call' and ev.e.get('op') == '()' and (ev.recv_path() or '').endswith('do_completion')
     is_collect = lambda ev: ev.kind == 'call' and ev.e.get('op') == '()' and (ev.recv_path() or '').endswith('do_collect')
     K.check_at(R, P + '.K2', G, res, lambda ev: is_completion(ev) or is_collect(ev),
@@ -153,6 +165,17 @@ def stub(R, prog):
                require=lambda st, ev: ('G:%s == this->m_header.size=T' % ev.path(ev.e['sub'])) in st and ev.path(ev.e['sub']) in K.locals_assigned_from_call(G.root, r'::readv$'),
                key_fn=lambda ev: P + '.K6:StubImpl::do_recv_body:full-body-or-error',
                describe=lambda ev: 'a body is reported only when exactly m_header.size bytes arrived', min_sites=1, what='return ret')
+    # a partial or invalid read leaves the byte stream out of frame: the stream is shut down before the error is reported,
+    # so that no later reader takes the middle of this response for a header
+    for fn, rd in (('do_recv_header', r'::read$'), ('do_recv_body', r'::readv$')):
+        G = K.build(R, prog, S + '::' + fn)
+        rdcall = lambda ev, rd=rd: ev.kind == 'call' and re.search(rd, ev.callee() or '') and 'm_stream' in (ev.recv_path() or '')
+        shut = lambda ev: ev.kind == 'call' and (ev.callee() or '').endswith('::shutdown') and 'm_stream' in (ev.recv_path() or '')
+        res = an.run(G, [an.SeenTracker([('read', rdcall), ('shutdown', shut)])])
+        K.check_at(R, P + '.K7', G, res, lambda ev: ev.kind == 'return' and ev.depth == 0 and ev.f.const(ev.e['sub']) == -1,
+                   require=lambda st, ev: 'S:read' not in st or 'S:shutdown' in st,
+                   key_fn=lambda ev, fn=fn: '%s.K7:StubImpl::%s:failed-read-shuts-the-stream-down' % (P, fn),
+                   describe=lambda ev: 'after the stream was read, an error is returned only after m_stream->shutdown() (the stream cannot be re-framed)', min_sites=1, what='return -1')
     # do_call: issue then wait, result only on success
     G = K.build(R, prog, S + '::do_call')
     seen = an.SeenTracker([('issued', lambda ev: ev.kind == 'call' and ev.callee() == 'photon::rpc::ooo_issue_operation'),
